@@ -13,8 +13,8 @@ import (
 	"os"
 	"os/signal"
 	"path/filepath"
-	"reflect"
 	"regexp"
+	"runtime/pprof"
 	"strconv"
 	"strings"
 	"syscall"
@@ -75,34 +75,51 @@ func c17Families() []c17Family {
 func (f c17Family) base() bool { return f.Format == "" && !f.Stop }
 
 type c17Bounds struct {
-	ShortLen    int `json:"all_splits_up_to_runes"`
-	MaxCuts     int `json:"max_cuts_long_outputs_base_families"`
-	MaxCutsPass int `json:"max_cuts_long_outputs_format_or_stop_families"`
+	ShortLen         int `json:"all_splits_up_to_runes"`
+	MaxCuts          int `json:"max_cuts_long_outputs"`
+	MaxCutsShortTool int `json:"max_cuts_tool_outputs_up_to_34_runes_in_chat_tools_family"`
+	MaxCutsPass      int `json:"max_cuts_long_outputs_where_text_is_opaque_or_format_stop_set"`
+	MaxCutsPassShort int `json:"max_cuts_short_outputs_in_format_stop_families"`
 }
 
 func c17GetBounds() c17Bounds {
 	if evid.Thorough() {
-		return c17Bounds{ShortLen: 10, MaxCuts: 3, MaxCutsPass: 2}
+		return c17Bounds{ShortLen: 10, MaxCuts: 3, MaxCutsShortTool: 4, MaxCutsPass: 2, MaxCutsPassShort: 10}
 	}
-	return c17Bounds{ShortLen: 10, MaxCuts: 2, MaxCutsPass: 1}
+	return c17Bounds{ShortLen: 10, MaxCuts: 2, MaxCutsShortTool: 2, MaxCutsPass: 1, MaxCutsPassShort: 2}
 }
 
 // maxDepth: largest number of cuts (complete scripts) / delivered chunks (failing scripts)
+//
+//	base families (no format, no stop):
+//	  outputs of <= ShortLen runes: every chunking
+//	  longer outputs: <= MaxCuts cuts in the chat+tools family (the only one whose handler looks into the text;
+//	  <= MaxCutsShortTool for the tool-call outputs of <= 34 runes) and for the output "tool-call" in the others;
+//	  <= MaxCutsPass cuts for the remaining longer outputs in families where the text is opaque
+//	pass-through families (format and/or stop set): <= MaxCutsPass cuts (<= MaxCutsPassShort for short outputs)
 func (b c17Bounds) maxDepth(f c17Family, o c17Output, fail bool) int {
 	L := len([]rune(o.Text))
-	if L <= b.ShortLen {
-		if fail {
-			return L
-		}
-		if L == 0 {
-			return 0
-		}
-		return L - 1
+	full := L - 1
+	if fail {
+		full = L
 	}
-	if f.base() {
-		return b.MaxCuts
+	if full < 0 {
+		full = 0
 	}
-	return b.MaxCutsPass
+	d := 0
+	switch {
+	case L <= b.ShortLen && f.base():
+		d = full
+	case L <= b.ShortLen:
+		d = b.MaxCutsPassShort
+	case f.base() && f.Tools && L <= 34:
+		d = b.MaxCutsShortTool
+	case f.base() && (f.Tools || o.Name == "tool-call"):
+		d = b.MaxCuts
+	default:
+		d = b.MaxCutsPass
+	}
+	return min(d, full)
 }
 
 func c17Binom(n, k int) int64 {
@@ -253,6 +270,9 @@ func c17DiffClass(got, want c17Tuple) string {
 		return "content-extra"
 	case got.Text != want.Text:
 		return "content-differs"
+	case got.Finish != want.Finish && want.Finish == "tool_calls" && !strings.Contains(got.Finish, ","):
+		// one class whatever the done_reason (stop, length) that shows up instead
+		return "finish-reason/done_reason-instead-of-tool_calls"
 	case got.Finish != want.Finish:
 		return "finish-reason/" + c17Word(got.Finish) + "-vs-" + c17Word(want.Finish)
 	}
@@ -611,17 +631,28 @@ func ZZVerifC17() {
 	if p := evid.ReplayPath(); p != "" {
 		c17Replay(p)
 	}
+	if os.Getenv("VERIF_C17_BENCH") != "" {
+		c17Bench()
+	}
 	b := c17GetBounds()
 	fams := c17Families()
-	budget := 100 * time.Second
+	budget := 110 * time.Second
 	if evid.Thorough() {
-		budget = 14 * time.Minute
+		budget = 14*time.Minute + 30*time.Second
 	}
-	r.SetDeadline(budget)
+	if v, err := strconv.Atoi(os.Getenv("VERIF_C17_BUDGET_S")); err == nil && v > 0 {
+		budget = time.Duration(v) * time.Second // developer override, e.g. on a loaded machine
+	}
 	if evid.IsWorker() {
+		// the coordinator's absolute deadline
+		if u, err := strconv.ParseInt(os.Getenv("VERIF_C17_DEADLINE"), 10, 64); err == nil {
+			r.SetDeadline(time.Until(time.Unix(u, 0)))
+		}
 		r.Fanout(nil, evid.FanoutOpts{}, c17Work) // never returns
 	}
 
+	r.SetDeadline(budget)
+	deadline := time.Now().Add(budget)
 	base := fmt.Sprintf("/dev/shm/verif-c17-%d", os.Getpid())
 	os.MkdirAll(base, 0o755)
 	cleanup := func() { os.RemoveAll(base) }
@@ -645,7 +676,7 @@ func ZZVerifC17() {
 
 	// phases by depth so that the recorded example of a defect class comes from the simplest scripts
 	maxPhase := 3
-	var total int64
+	var total, plannedReq int64
 	type itemT struct {
 		s string
 		n int64
@@ -655,7 +686,7 @@ func ZZVerifC17() {
 		perItem = 6000
 	}
 	workers := 0
-	opts := evid.FanoutOpts{Workers: workers, ItemTimeout: 20 * time.Minute, Env: []string{"VERIF_C17_DIR=" + base},
+	opts := evid.FanoutOpts{Workers: workers, ItemTimeout: 20 * time.Minute, Env: []string{"GOMAXPROCS=1", "GOGC=400", "VERIF_C17_DIR=" + base, "VERIF_C17_DEADLINE=" + strconv.FormatInt(deadline.Unix(), 10)},
 		OnCrash: func(item, tail string, timedOut bool) (string, string) {
 			if !timedOut && strings.Contains(tail, "panic:") {
 				i := strings.Index(tail, "panic:")
@@ -690,6 +721,7 @@ func ZZVerifC17() {
 							items = append(items, itemT{fmt.Sprintf("%d %d %s %d %d %d", fi, oi, mode, d, p, parts), n / int64(parts)})
 						}
 						total += n
+						plannedReq += n * int64(len(c17Variants(f)))
 					}
 				}
 			}
@@ -698,9 +730,18 @@ func ZZVerifC17() {
 		for _, it := range items {
 			list = append(list, it.s)
 		}
+		if os.Getenv("VERIF_C17_PLAN") != "" {
+			fmt.Printf("phase %d: %d items\n", phase, len(list))
+			continue
+		}
 		if len(list) > 0 {
 			r.Fanout(list, opts, c17Work)
 		}
+	}
+	if os.Getenv("VERIF_C17_PLAN") != "" {
+		fmt.Printf("planned cases %d, planned requests %d\n", total, plannedReq)
+		cleanup()
+		os.Exit(0)
 	}
 	if got := r.Count("runner_scripts"); got != total {
 		r.NotExhaustive(fmt.Sprintf("%d of %d planned (family, output, script) cases were executed", got, total))
@@ -717,8 +758,36 @@ func ZZVerifC17() {
 	r.Extra("outputs", outs)
 	r.Extra("families", fnames)
 	r.Extra("planned_cases", total)
+	r.Extra("planned_requests", plannedReq)
 	r.Extra("variants_per_case", map[string]any{"native": c17NativeVariants, "openai": c17OpenAIVariants})
-	_ = reflect.DeepEqual
 	cleanup()
 	r.Finish()
+}
+
+// c17Bench: developer aid (VERIF_C17_BENCH=<family index>): time the first 300 scripts of one item.
+func c17Bench() {
+	fi, _ := strconv.Atoi(os.Getenv("VERIF_C17_BENCH"))
+	base := fmt.Sprintf("/dev/shm/verif-c17-%d", os.Getpid())
+	os.Setenv("VERIF_C17_DIR", base)
+	defer os.RemoveAll(base)
+	e := c17GetEnv()
+	f, o := c17Families()[fi], c17Outputs[8]
+	sub := evid.Start("C17", "exploration")
+	if pf := os.Getenv("VERIF_C17_PROF"); pf != "" {
+		fh, _ := os.Create(pf)
+		pprof.StartCPUProfile(fh)
+		defer pprof.StopCPUProfile()
+	}
+	t0 := time.Now()
+	n := 0
+	c17Scripts(o, 2, false, func(idx int64, s c17Script) bool {
+		c17RunCase(e, f, o, s, sub)
+		n++
+		return n < 300
+	})
+	d := time.Since(t0)
+	fmt.Printf("family %s: %d scripts, %d requests, %v, %.0f us/request\n", f, n, sub.Count("evaluations"), d, float64(d.Microseconds())/float64(sub.Count("evaluations")))
+	pprof.StopCPUProfile()
+	os.RemoveAll(base)
+	os.Exit(0)
 }
